@@ -26,7 +26,7 @@ func (e *Engine) freshNow(st *State) Value {
 	if st.LastNow != nil {
 		cond = c.And(cond, c.Sge(s, st.LastNow))
 	}
-	st.PC = append(st.PC, cond)
+	e.assertPC(st, cond)
 	if st.Model != nil {
 		// extend the model with a value satisfying the constraint
 		v := uint64(lo)
